@@ -2,6 +2,10 @@
 package c19
 
 import (
+	"compress/gzip"
+	"compress/zlib"
+	"compress/flate"
+
 	"time"
 	"strings"
 	"bytes"
@@ -611,7 +615,41 @@ func run(c *h.Ctx, cs Case) {
 
 func draw(t *rapid.T) Case {
 	var cs Case
-	switch rapid.IntRange(0, 5).Draw(t, "pmode") {
+	switch rapid.IntRange(0, 7).Draw(t, "pmode") {
+	case 6, 7:
+		// a value that is itself a container format some layer might want to "open": a gzip member, a zlib stream, a
+		// DEFLATE block, a PNG / ZIP / zstd / lz4 magic, a DAG-CBOR map, a JSON document, base64 text - stored as given
+		inner := []byte("the quick brown fox jumps over the lazy dog " + rapid.StringN(0, 40, -1).Draw(t, "wrapped"))
+		switch rapid.IntRange(0, 9).Draw(t, "wrapkind") {
+		case 0, 1:
+			var b bytes.Buffer
+			w := gzip.NewWriter(&b)
+			_, _ = w.Write(inner)
+			_ = w.Close()
+			cs.Plain = b.Bytes()
+		case 2:
+			var b bytes.Buffer
+			w := zlib.NewWriter(&b)
+			_, _ = w.Write(inner)
+			_ = w.Close()
+			cs.Plain = b.Bytes()
+		case 3:
+			var b bytes.Buffer
+			w, _ := flate.NewWriter(&b, flate.BestCompression)
+			_, _ = w.Write(inner)
+			_ = w.Close()
+			cs.Plain = b.Bytes()
+		case 4:
+			cs.Plain = append([]byte{0x1f, 0x8b, 0x08, 0x00}, inner...) // the gzip magic, then something else
+		case 5:
+			cs.Plain = append(rapid.SampledFrom([][]byte{{0x28, 0xb5, 0x2f, 0xfd}, {0x04, 0x22, 0x4d, 0x18}, {0x89, 'P', 'N', 'G'}, {'P', 'K', 3, 4}, {0xa1, 0x61, 'k'}}).Draw(t, "magic"), inner...)
+		case 6:
+			cs.Plain = []byte(`{"k":"` + string(inner) + `","/":{"bytes":"AQID"}}`)
+		case 7:
+			cs.Plain = []byte(base64.StdEncoding.EncodeToString(inner))
+		default:
+			cs.Plain = []byte(strings.Repeat("a", rapid.IntRange(1, 3000).Draw(t, "run")))
+		}
 	case 0:
 		cs.Plain = []byte{}
 	case 1:
